@@ -420,6 +420,24 @@ class TypedNode(Node):
             node_id=node_id,
         )
 
+    def _add_from(
+        self, other: Node, *, predicate: Optional[PredicateCallbackType] = None
+    ) -> None:
+        """Append copies of all source descendants to self (keeping the `kind`)."""
+        if predicate:
+            return self._add_filtered(other, predicate)
+
+        assert not self._children
+        for child in other.children:
+            new_child = self.add_child(
+                child.data,
+                kind=getattr(child, "kind", None),
+                data_id=child._data_id,
+            )
+            if child.children:
+                new_child._add_from(child, predicate=None)
+        return
+
     def move_to(
         self,
         new_parent: TypedNode | TypedTree,
